@@ -34,7 +34,13 @@ def check(rep, tier, seed):
     os.makedirs(d, exist_ok=True)
     p = run(["python3-vt", os.path.join(ROOT, "py/npgen.py"), d, str(seed), "1"], timeout=600)
     metas = [json.loads(l) for l in p.stdout.splitlines() if l.strip() and '"reject"' not in l]
-    for m in rng.sample(metas, min(len(metas), 12 if tier == "quick" else 80)):
+    # one file per dtype x byte order (so that every decoder row meets every truncation offset), then a random slice
+    strat = {}
+    for m in metas:
+        strat.setdefault((m["dtype"], m["order"]), m)
+    chosen = list(strat.values()) + rng.sample(metas, min(len(metas), 6 if tier == "quick" else 80))
+    rep.coverage["numpy_files_dtype_x_order"] = len(strat)
+    for m in chosen:
         b = open(m["path"], "rb").read()
         blobs.append(("numpy %s%s v%d %s" % (m["order"], m["dtype"], m["version"], m["variant"]), b))
     shutil.rmtree(d, ignore_errors=True)
